@@ -191,6 +191,8 @@ Definition pattern_try_new (expr ellipsis : cell) (literals : list cell) : out p
   build d p.
 
 (* -------------------------------------------------- check_template_syntax (249-283) *)
+(* Models the REPAIRED code (fix F15, see [expands] below); the pinned code is the same
+   without the [expands] test. *)
 (* the Symbol arm of the loop body, 265-278 *)
 Definition cts_symbol (p : pattern) (ellipsis : cell) (t : cell) (improper : bool)
     (peek : option cell) (eip : bool) : out bool :=
@@ -200,6 +202,27 @@ Definition cts_symbol (p : pattern) (ellipsis : cell) (t : cell) (improper : boo
     if eip || (improper && match peek with None => true | Some _ => false end) then Err E_OTHER
     else Ok true
   else Ok eip.
+
+(* [expands], added by the F15 fix (repo branch wp-mac, a436e50): can expanding the
+   element run out of bindings — is it, or does it contain outside of a nested ellipsis,
+   a variable bound under an ellipsis in the pattern? *)
+Definition expands_atom (p : pattern) (t : cell) : bool :=
+  match t with CSym _ => is_expanded_variable p t | _ => false end.
+Fixpoint expands (p : pattern) (ellipsis : cell) (t : cell) {struct t} : bool :=
+  match t with
+  | CSym _ => is_expanded_variable p t
+  | CPair _ _ =>
+      (fix walk (rest : cell) {struct rest} : bool :=
+         match rest with
+         | CPair it rest' =>
+             if negb (match peek_cell rest' with Some c => cell_eqb c ellipsis | None => false end)
+                && expands p ellipsis it then true
+             else walk rest'
+         | CNil => false
+         | other => expands_atom p other      (* the improper tail: peek = None *)
+         end) t
+  | _ => false
+  end.
 
 Fixpoint check_template_syntax (template : cell) (p : pattern) (ellipsis : cell)
     {struct template} : out unit :=
@@ -212,6 +235,9 @@ Fixpoint check_template_syntax (template : cell) (p : pattern) (ellipsis : cell)
          match rest with
          | CNil => Ok tt
          | CPair t rest' =>
+             (* F15 fix: the element before an ellipsis must be able to run out of bindings *)
+             if (match peek_cell rest' with Some c => cell_eqb c ellipsis | None => false end)
+                && negb (expands p ellipsis t) then Err E_OTHER else
              match t with
              | CPair _ _ => do _ <- check_template_syntax t p ellipsis; loop rest' eip
              | CSym _ => do eip1 <- cts_symbol p ellipsis t improper (peek_cell rest') eip; loop rest' eip1
